@@ -97,9 +97,9 @@ Properties/C11.vos Properties/C11.vok Properties/C11.required_vos: Properties/C1
 Properties/C14.vo Properties/C14.glob Properties/C14.v.beautified Properties/C14.required_vo: Properties/C14.v Model/Types.vo Model/Book.vo Model/Obs.vo Model/Rng.vo Model/Env.vo Proofs/EnvProps.vo
 Properties/C14.vio: Properties/C14.v Model/Types.vio Model/Book.vio Model/Obs.vio Model/Rng.vio Model/Env.vio Proofs/EnvProps.vio
 Properties/C14.vos Properties/C14.vok Properties/C14.required_vos: Properties/C14.v Model/Types.vos Model/Book.vos Model/Obs.vos Model/Rng.vos Model/Env.vos Proofs/EnvProps.vos
-Properties/C15.vo Properties/C15.glob Properties/C15.v.beautified Properties/C15.required_vo: Properties/C15.v Model/Types.vo Model/Rng.vo Model/Env.vo Proofs/EnvProps.vo
-Properties/C15.vio: Properties/C15.v Model/Types.vio Model/Rng.vio Model/Env.vio Proofs/EnvProps.vio
-Properties/C15.vos Properties/C15.vok Properties/C15.required_vos: Properties/C15.v Model/Types.vos Model/Rng.vos Model/Env.vos Proofs/EnvProps.vos
+Properties/C15.vo Properties/C15.glob Properties/C15.v.beautified Properties/C15.required_vo: Properties/C15.v Model/Types.vo Model/Rng.vo Model/Env.vo Proofs/EnvProps.vo Proofs/Uniform.vo
+Properties/C15.vio: Properties/C15.v Model/Types.vio Model/Rng.vio Model/Env.vio Proofs/EnvProps.vio Proofs/Uniform.vio
+Properties/C15.vos Properties/C15.vok Properties/C15.required_vos: Properties/C15.v Model/Types.vos Model/Rng.vos Model/Env.vos Proofs/EnvProps.vos Proofs/Uniform.vos
 Proofs/AgentProps.vo Proofs/AgentProps.glob Proofs/AgentProps.v.beautified Proofs/AgentProps.required_vo: Proofs/AgentProps.v Model/Types.vo Model/Side.vo Model/Book.vo Model/Obs.vo Model/Rng.vo Model/Float.vo Model/Env.vo Model/Agents.vo
 Proofs/AgentProps.vio: Proofs/AgentProps.v Model/Types.vio Model/Side.vio Model/Book.vio Model/Obs.vio Model/Rng.vio Model/Float.vio Model/Env.vio Model/Agents.vio
 Proofs/AgentProps.vos Proofs/AgentProps.vok Proofs/AgentProps.required_vos: Proofs/AgentProps.v Model/Types.vos Model/Side.vos Model/Book.vos Model/Obs.vos Model/Rng.vos Model/Float.vos Model/Env.vos Model/Agents.vos
@@ -154,6 +154,9 @@ Proofs/LedgerRef.vos Proofs/LedgerRef.vok Proofs/LedgerRef.required_vos: Proofs/
 Proofs/Progress.vo Proofs/Progress.glob Proofs/Progress.v.beautified Proofs/Progress.required_vo: Proofs/Progress.v Model/Types.vo Model/Map.vo Model/Side.vo Model/Book.vo Model/Obs.vo Spec/RefBook.vo Proofs/Basic.vo Proofs/MapLemmas.vo Proofs/Refine.vo Proofs/Volumes.vo Proofs/Views.vo Proofs/Reload.vo
 Proofs/Progress.vio: Proofs/Progress.v Model/Types.vio Model/Map.vio Model/Side.vio Model/Book.vio Model/Obs.vio Spec/RefBook.vio Proofs/Basic.vio Proofs/MapLemmas.vio Proofs/Refine.vio Proofs/Volumes.vio Proofs/Views.vio Proofs/Reload.vio
 Proofs/Progress.vos Proofs/Progress.vok Proofs/Progress.required_vos: Proofs/Progress.v Model/Types.vos Model/Map.vos Model/Side.vos Model/Book.vos Model/Obs.vos Spec/RefBook.vos Proofs/Basic.vos Proofs/MapLemmas.vos Proofs/Refine.vos Proofs/Volumes.vos Proofs/Views.vos Proofs/Reload.vos
+Proofs/Uniform.vo Proofs/Uniform.glob Proofs/Uniform.v.beautified Proofs/Uniform.required_vo: Proofs/Uniform.v Model/Types.vo Model/Rng.vo Proofs/Basic.vo Proofs/EnvProps.vo
+Proofs/Uniform.vio: Proofs/Uniform.v Model/Types.vio Model/Rng.vio Proofs/Basic.vio Proofs/EnvProps.vio
+Proofs/Uniform.vos Proofs/Uniform.vok Proofs/Uniform.required_vos: Proofs/Uniform.v Model/Types.vos Model/Rng.vos Proofs/Basic.vos Proofs/EnvProps.vos
 Properties/C01.vo Properties/C01.glob Properties/C01.v.beautified Properties/C01.required_vo: Properties/C01.v Model/Types.vo Model/Map.vo Model/Side.vo Model/Book.vo Model/Obs.vo Spec/RefBook.vo Proofs/Ledger.vo Proofs/Refine.vo Proofs/RefProps.vo Proofs/Volumes.vo Proofs/Reload.vo Proofs/Progress.vo
 Properties/C01.vio: Properties/C01.v Model/Types.vio Model/Map.vio Model/Side.vio Model/Book.vio Model/Obs.vio Spec/RefBook.vio Proofs/Ledger.vio Proofs/Refine.vio Proofs/RefProps.vio Proofs/Volumes.vio Proofs/Reload.vio Proofs/Progress.vio
 Properties/C01.vos Properties/C01.vok Properties/C01.required_vos: Properties/C01.v Model/Types.vos Model/Map.vos Model/Side.vos Model/Book.vos Model/Obs.vos Spec/RefBook.vos Proofs/Ledger.vos Proofs/Refine.vos Proofs/RefProps.vos Proofs/Volumes.vos Proofs/Reload.vos Proofs/Progress.vos
